@@ -170,7 +170,16 @@ func (c LongCodec) Omit(p unsafe.Pointer) bool {
 
 func (c LongCodec) Write(w *avro.WriteBuf, p unsafe.Pointer) {
 	t := *(*time.Time)(p)
-	l := t.UnixMicro()
+	// Write in the unit Read multiplies back into nanoseconds.
+	var l int64
+	switch c.mult {
+	case 1:
+		l = t.UnixNano()
+	case 1e6:
+		l = t.UnixMilli()
+	default:
+		l = t.UnixMicro()
+	}
 
 	c.Int64Codec.Write(w, unsafe.Pointer(&l))
 }
